@@ -258,6 +258,8 @@ def run_job(job):
         leaves = flat([x for i, x in enumerate(tree) if i not in kws] + [tree[i] for i in kws])
     tss = [l['ts'] for l in leaves if 'ts' in l]
     inp = build(tree)
+    if job.get('listcls'):
+        inp = _as_basket(inp)
     before = json.dumps(tree)
     nested = depth_class(tree)
     try:
@@ -291,6 +293,12 @@ def run_job(job):
         if fn == 'df_sync' and nested and isinstance(e, TypeError) and 'missing' in str(e):
             return [(K_D5, '%s on a container nested two deep raised %s: %s' % (fn, type(e).__name__, e))]
         return [('C03:raises:%s' % ('nested' if nested else 'flat'), '%s raised %s: %s' % (fn, type(e).__name__, e))]
+    if job.get('listcls'):
+        # a list subclass is a list: it is looped over like one and comes back as an instance of the same class
+        bad = []
+        got = _from_basket(inp, got, bad)
+        if bad:
+            out.append(('C03:structure:list-subclass', '%s: a container of class Basket(list) came back as %s' % (bad[0][0], bad[0][1])))
     if is_np:
         compare_np(tree, got, np_expected([l for l in leaves if 'arr' in l or 'arr1' in l], join), out)
     else:
@@ -335,6 +343,30 @@ def mk_ts(rng, sid, idx, cols=None, rowwise=False, p_nan=0.3):
 
 LITS = ['txt', 3, None, 2.5]
 COLSETS = [['a', 'b'], ['b', 'c'], ['a', 'c'], ['a', 'b', 'c'], ['c', 'a'], ['x']]
+
+
+class Basket(list):
+    """a list subclass used as a container of timeseries"""
+
+
+def _as_basket(x):
+    if isinstance(x, list):
+        return Basket(_as_basket(v) for v in x)
+    if isinstance(x, dict):
+        return {k: _as_basket(v) for k, v in x.items()}
+    return x
+
+
+def _from_basket(inp, got, bad, path='$'):
+    if isinstance(inp, Basket):
+        if type(got) is not Basket:
+            bad.append((path, type(got).__name__))
+        if isinstance(got, (list, tuple)) and len(got) == len(inp):
+            return [_from_basket(i, g, bad, '%s[%d]' % (path, k)) for k, (i, g) in enumerate(zip(inp, got))]
+        return got
+    if isinstance(inp, dict) and isinstance(got, dict):
+        return type(got)((k, _from_basket(inp[k], v, bad, '%s.%s' % (path, k)) if k in inp else v) for k, v in got.items())
+    return got
 
 
 def jobs_for(tier, seed):
@@ -438,11 +470,16 @@ def jobs_for(tier, seed):
         shape = rng.choice([[a, b], [a, b, c], [{'d': {'x': a, 'y': b}}, c], [a, {'lit': 'txt'}, b], [[a, b], c]])
         kw = [i for i in range(len(shape)) if i > 0 and rng.random() < .4]
         add('presync', shape, rng.choice(JOINS + [sorted(rng.sample(range(6), 3))]), rng.choice(METHODS), kw=kw)
+    # F. the same collections with every list replaced by an instance of a list subclass (class Basket(list)): a seeded sample of the jobs above
+    rng2 = random.Random(seed + 4242)
+    plain = [j for j in jobs if isinstance(j['tree'], list) and j['fn'] != 'presync']
+    for j in rng2.sample(plain, min(len(plain), 400 if quick else 6000)):
+        jobs.append(dict(j, listcls='Basket'))
     return jobs
 
 
 def ident(job):
-    return json.dumps([job['fn'], job['tree'], job['join'], job.get('method'), job.get('columns'), job.get('kw')], sort_keys=True)
+    return json.dumps([job['fn'], job['tree'], job['join'], job.get('method'), job.get('columns'), job.get('kw'), job.get('listcls')], sort_keys=True)
 
 
 def nontrivial(job):
@@ -458,7 +495,7 @@ def run(tier, seed):
                   'observation, only an entirely-NaN row is missing, a surviving row keeps its NaN cells), mixed with strings/numbers/None, in lists, dicts and 8 nested shapes; join in {ij,oj,lj,rj,explicit '
                   'index}; method in {None,ffill,bfill}; column policy in {default,ij,oj,lj,rj}; df_sync, df_reindex (index as policy, as pd.Index, as a '
                   'timeseries), presync(recording function; columns=False for frames); bare numpy arrays: every 2- and 3-tuple of lengths 0..5, 1-d and 2-d, x 4 joins; seeded choices '
-                  'from random.Random(seed). Distinct by (function, collection, join, method, columns); non-trivial when some member has at least one row'
+                  'from random.Random(seed); a seeded sample of these collections again with every list an instance of a list subclass (looped over like a list, same class back). Distinct by (function, collection, join, method, columns); non-trivial when some member has at least one row'
                   % ('all 4096' if not quick else '~770 seeded'), exhaustive=False,
                   scope='index sets: subsets of 6 timestamps; <=3 timeseries per collection; nesting depth <=4; numpy lengths 0..5')
     jobs = jobs_for(tier, seed)
@@ -469,7 +506,7 @@ def run(tier, seed):
         pool = mp.get_context('fork').Pool(14)
         results = pool.imap(run_job, jobs, chunksize=50)
     for job, fails in zip(jobs, results):
-        call = dict(fn=job['fn'], tree=job['tree'], join=job['join'], method=job.get('method'), columns=job.get('columns'), kw=job.get('kw'))
+        call = dict(fn=job['fn'], tree=job['tree'], join=job['join'], method=job.get('method'), columns=job.get('columns'), kw=job.get('kw'), listcls=job.get('listcls'))
         c.case(ident(job), nontrivial=nontrivial(job), sample=dict(fn=job['fn'], join=job['join'], method=job.get('method'), collection=json.dumps(job['tree'])[:300]))
         for key, what in fails:
             c.check(False, key, what, call)
@@ -480,5 +517,5 @@ def run(tier, seed):
 
 
 def replay(call):
-    fails = run_job(dict(fn=call['fn'], tree=call['tree'], join=call['join'], method=call.get('method'), columns=call.get('columns'), kw=call.get('kw')))
+    fails = run_job(dict(fn=call['fn'], tree=call['tree'], join=call['join'], method=call.get('method'), columns=call.get('columns'), kw=call.get('kw'), listcls=call.get('listcls')))
     return dict(fails=bool(fails), detail='; '.join('%s: %s' % f for f in fails)[:600] if fails else 'all clauses hold on the real code for this input')
